@@ -2,6 +2,7 @@ package checks
 
 import (
 	"fmt"
+	"strings"
 
 	"verif/engine/gosym"
 	. "verif/engine/oracle"
@@ -101,7 +102,21 @@ func c04Shapes() []Shape {
 		sh = append(sh, constShape(name, Prog(append(append([]Stmt{}, tracers...), body...)...)))
 	}
 	add("arith-operands", Pr(Op("+", ti(1, L(0)), Op("*", ti(2, L(1)), ti(3, L(2))))), Def("x", Op("-", Op("-", ti(4, L(0)), ti(5, L(1))), ti(6, L(2)))), Pr(V("x")))
-	add("comparison-operands", Pr(Op("<", ti(1, L(0)), ti(2, L(1)))), Pr(Op("==", ts(3, S("a")), ts(4, S("b")))))
+	sh = append(sh, Shape{Name: "comparison-operands(op)", Prog: func(c *gosym.Ctx) *Program {
+		o := cmpOps[c.Choose("cmp", 0, 5)]
+		body := []Stmt{Pr(Op(o, ti(1, L(0)), ti(2, L(1)))), IfS(Op(o, ti(3, L(2)), ti(4, L(3))), Pr(S("yes"))), Pr(Op([]string{"==", "!="}[c.Choose("eq", 0, 1)], ts(5, S("a")), ts(6, S("b"))))}
+		return Prog(append(append([]Stmt{}, tracers...), body...)...)
+	}})
+	sh = append(sh, Shape{Name: "arith-operands(op)", Prog: func(c *gosym.Ctx) *Program {
+		o := arithOps[c.Choose("op", 0, 4)]
+		body := []Stmt{Pr(Op(o, ti(1, L(0)), ti(2, L(1)))), Def("y", N(3)), OpSet("y", o, ti(3, L(2))), Pr(V("y")), Pr(Op("+", ts(4, S("a")), ts(5, S("b"))))}
+		return Prog(append(append([]Stmt{}, tracers...), body...)...)
+	}})
+	sh = append(sh, Shape{Name: "logical-operands(op)", Prog: func(c *gosym.Ctx) *Program {
+		o := []string{"&&", "||"}[c.Choose("op", 0, 1)]
+		body := []Stmt{Pr(Op(o, tb(1, Op("<", L(0), L(1))), tb(2, Op("<", L(2), L(3))))), Pr(Op(o, Op(o, tb(3, T()), tb(4, F())), tb(5, T()))), Pr(NOT(tb(6, F())))}
+		return Prog(append(append([]Stmt{}, tracers...), body...)...)
+	}})
 	add("logical-eager-and", IfElse(Op("&&", tb(1, Op("<", L(0), L(1))), tb(2, Op("<", L(2), L(3)))), Blk{Pr(S("T"))}, Blk{Pr(S("F"))}))
 	add("logical-eager-or-not", Pr(Op("||", tb(1, Op("<", L(0), L(1))), NOT(tb(2, Op("<", L(2), L(3)))))))
 	add("if-chain-conditions-before-bodies",
@@ -184,6 +199,9 @@ func checkShapes(r *Run, shapes []Shape, o eqOpts, maxPaths int, assumptions ...
 	}
 	r.Native = nat
 	runShapes(r, shapes, o, maxPaths)
+	if r.PostShapes != nil {
+		r.PostShapes()
+	}
 	if _, ok := r.Ev.Coverage["disagreements_checked"].(int); !ok {
 		r.Cov("disagreements_checked", 0)
 	}
@@ -201,7 +219,11 @@ func checkShapes(r *Run, shapes []Shape, o eqOpts, maxPaths int, assumptions ...
 }
 
 func CheckC02(r *Run) int {
-	return checkShapes(r, c02Shapes(), eqOpts{Target: "bash", CheckHazards: true}, 3000, "bounds: <=4 functions per shape, call nesting <=3, arity <=3 in / <=3 out; literals are unconstrained 64-bit values")
+	ngen := 30
+	if r.Tier != "quick" {
+		ngen = 500
+	}
+	return checkShapes(r, append(c02Shapes(), generatedShapes("functions", r.Seed, ngen, true, true)...), eqOpts{Target: "bash", CheckHazards: true}, 3000, "bounds: <=4 functions per shape, call nesting <=3, arity <=3 in / <=3 out; literals are unconstrained 64-bit values")
 }
 
 func CheckC03(r *Run) int {
@@ -210,4 +232,35 @@ func CheckC03(r *Run) int {
 
 func CheckC04(r *Run) int {
 	return checkShapes(r, c04Shapes(), eqOpts{Target: "bash", CheckHazards: true}, 3000, "tracer functions print their position; the printed sequence is compared with the reference's left-to-right, exactly-once, eager order")
+}
+
+// CheckC05: the Batch target under cmd.exe's documented rules (BatSem), 32-bit integers.
+func CheckC05(r *Run) int {
+	shapes := append(append(append([]Shape{}, c01Shapes()...), c02Shapes()...), c03Shapes()...)
+	r.PostShapes = func() {
+		// the repository's own test programs: the Batch script under BatSem must print what the Bash script prints
+		// under the real bash (the tests expect the same output on both targets)
+		a, d, sk, notes := CalibrateBat(r)
+		r.Cov("repo_test_programs_agree", a)
+		r.Cov("repo_test_programs_skipped", sk)
+		r.AddCount("disagreements_checked", d)
+		for _, n := range notes {
+			if strings.Contains(n, "expected (") || strings.Contains(n, "unsupported") {
+				name := strings.SplitN(n, ":", 2)[0]
+				class := "C05.repo-test." + strings.TrimSpace(name)
+				if r.IsKnown(class) {
+					r.HitKnown(class, n)
+					continue
+				}
+				if strings.Contains(n, "unsupported") {
+					continue
+				}
+				rd := r.WriteReplay(class, map[string]string{"finding.txt": "property C05 (model-level: BatSem)\n" + n + "\n"})
+				r.AddViolation(Violation{Class: class, What: n, Replay: rd})
+			}
+		}
+	}
+	return checkShapes(r, shapes, eqOpts{Target: "batch"}, 4000,
+		"BatSem (oracle/batsem*.go) encodes cmd.exe's documented rules for the emitted Batch subset; it reproduces the expected output of all 120 accepted test programs of the repository (cmd/batcal) but cannot be calibrated against a real cmd.exe: verdicts are model-level",
+		"integers are 32-bit: literals assumed in the int32 range, the reference wraps at 32 bits; INT_MIN / -1 excluded; a counterexample is re-derived with the natively transpiled concrete program interpreted by BatSem concretely")
 }
